@@ -124,7 +124,7 @@ def _judge_rewrite(job):
             "case": {"rewrite": [name, kind, pos, text]}}
 
 
-ANCESTORS = ["build", "_deps", "CMakeFiles", ".git", ".hidden", "node_modules", "tmp", "docs", "test"]
+ANCESTORS = ["build", "_deps", "CMakeFiles", ".git", ".hidden", "node_modules", "tmp", "docs", "test", "mods[v2]", "a*b?", "{x,y}"]
 
 
 def logging_config(name):
@@ -205,6 +205,30 @@ def cli_many(job):
     if p.returncode == 0 or wrote:
         msgs.append(f"silent-cli: `cminx -o out <{n} faulty file(s)>`{' below ' + '/'.join(ANCESTORS) if where == 'ancestors' else ''} "
                     f"exits {p.returncode}{' and wrote ' + str(sorted(wrote)[:3]) if wrote else ''} ({kind} at offset {pos} of {name})")
+    if where == "names":
+        # a lone faulty file under names without a dot / with a leading dot / with another extension (named explicitly: read)
+        for nm in ("HelloModule", "CMakeLists", ".hidden-rules", "rules.cmake.in", "CMakeLists.txt"):
+            pth = os.path.join(ind, nm)
+            with open(pth, "w", encoding="utf-8") as f:
+                f.write(text)
+            for extra in ([], ["-o", os.path.join(root, "out-" + nm)]):
+                pn = subprocess.run([common.PYTHON, "-c", code] + extra + [pth], capture_output=True, text=True, env=env, cwd=root)
+                if pn.returncode == 0:
+                    msgs.append(f"silent-cli: `cminx {' '.join(extra[:1])} {nm}` (a lone faulty file) exits 0 ({kind} at offset {pos} of {name})")
+    if where == "overlap":
+        # inputs that overlap: a directory and its sub-directory (which holds the faulty file), non-recursive, both orders
+        sub = os.path.join(ind, "sub")
+        os.makedirs(sub, exist_ok=True)
+        with open(os.path.join(sub, "bad_in_sub.cmake"), "w", encoding="utf-8") as f:
+            f.write(text)
+        os.remove(files[0])
+        with open(os.path.join(ind, "good.cmake"), "w") as f:
+            f.write(BASES["flat_sets"])
+        for order in ([ind, sub], [sub, ind], [ind, os.path.join(sub, "bad_in_sub.cmake")]):
+            po = subprocess.run([common.PYTHON, "-c", code, "-o", os.path.join(root, "out-ov")] + order, capture_output=True, text=True, env=env, cwd=root)
+            if po.returncode == 0:
+                msgs.append(f"silent-cli: `cminx -o out {' '.join(os.path.relpath(x, root) for x in order)}` exits 0 although sub/bad_in_sub.cmake "
+                            f"has {kind} at offset {pos}")
     if where == "ancestors":
         out2 = os.path.join(root, "out2")
         p2 = subprocess.run([common.PYTHON, "-c", code, "-r", "-o", out2, ind], capture_output=True, text=True, env=env, cwd=root)
@@ -389,6 +413,8 @@ def run(ctx):
         if k[0] == "flat_sets":
             j = lst[len(lst) // 2]
             many.append(j + (1, "ancestors"))
+            if k[1] in ("quote", "rparen", "bare_word") or not quick:
+                many += [j + (1, "names"), j + (1, "overlap")]
             if k[1] in ("quote", "rparen") or not quick:
                 many += [j + (n, "plain") for n in ((2, 256) if quick else (2, 3, 255, 256, 257, 512))]
     ctx.sweep(cli_many, many, space="CLI: n faulty inputs / odd ancestor directories", selftest=0, chunk=1, isolate=False)
